@@ -110,7 +110,16 @@ def record(sc):
             with time_limit(120):
                 m = models[e["h"]]
                 if e["a"] == "add":
-                    parents = [Sym(["c", p]) if p in e["privs"] else m[p] for p in e["parents"]]
+                    def real(p):
+                        # an existing private constant is referred to by its logical name (its real name is auto-generated)
+                        if m.has_node(p):
+                            return p
+                        for n in m.nodes:
+                            st_ = m.get_state(n).get("attr_dict") or {}
+                            if n.startswith("_") and isinstance(st_.get("_output"), Sym) and st_["_output"].t[1] == p:
+                                return n
+                        return p
+                    parents = [Sym(["c", p]) if p in e["privs"] else m[real(p)] for p in e["parents"]]
                     if e["kind"] == "prior":
                         d = rec.make_dist(e["x"])
                         d.opid = e["op"]
@@ -207,6 +216,7 @@ def random_history(rnd, n_acts, fresh_only=True):
             opid += 1
             acts.append(dict(a="add", h=h, x=x, kind=kind, op=opid, parents=parents, privs=privs))
             G["nodes"][x] = kind
+            G.setdefault("plist", {})[x] = list(parents)
             for p in privs:
                 G["nodes"][p] = "const"
                 G["priv"].add(p)
@@ -222,7 +232,25 @@ def random_history(rnd, n_acts, fresh_only=True):
             acts.append(dict(a="addedge", h=h, x=x, y=p, v=-1))
         elif a == "become":
             x, y = rnd.sample(user, 2)
-            if fresh_only and rnd.random() < 0.5:
+            pl = G.setdefault("plist", {})
+            reuse = False
+            if fresh_only and rnd.random() < 0.3:
+                # the replacement is built on the replaced node's OWN parents, hidden constants included
+                # (`t.become(elfi.Prior('norm', *t.parents))`: another operation over the same arguments)
+                cands = [u for u in user if pl.get(u) and any(q in G["priv"] for q in pl[u]) and u not in G.get("named", {})
+                         and all(q in G["nodes"] and (q, u) in G["edges"] for q in pl[u])
+                         and len(pl[u]) == sum(1 for (q, c) in G["edges"] if c == u)]
+                free = [n for n in NAMES if n not in G["nodes"]]
+                if cands and free:
+                    x, y = rnd.choice(cands), rnd.choice(free)
+                    opid += 1
+                    acts.append(dict(a="add", h=h, x=y, kind=G["nodes"][x], op=opid, parents=list(pl[x]), privs=[]))
+                    G["nodes"][y] = G["nodes"][x]
+                    pl[y] = list(pl[x])
+                    for q in pl[x]:
+                        G["edges"].add((q, y))
+                    reuse = True
+            if fresh_only and not reuse and rnd.random() < 0.5:
                 # prefer the documented use: replace a node that has children by a childless, unrelated one
                 ys = [u for u in user if not children(h, u)]
                 xs = sorted(user, key=lambda u: -len(children(h, u)))
@@ -233,7 +261,7 @@ def random_history(rnd, n_acts, fresh_only=True):
                         break
             if fresh_only and (x == y or children(h, y) or y in desc(h, x)):
                 continue
-            if fresh_only and rnd.random() < 0.4 and G["nodes"][y] != "prior" and y not in G.setdefault("named", {}):
+            if fresh_only and not reuse and rnd.random() < 0.4 and G["nodes"][y] != "prior" and y not in G.setdefault("named", {}):
                 # the replacement gets a keyword parent first (model.add_edge), then replaces x
                 cand = [p for p in user if p not in (x, y) and (p, y) not in G["edges"] and p not in desc(h, y) and p not in desc(h, x)]
                 if cand:
@@ -253,6 +281,10 @@ def random_history(rnd, n_acts, fresh_only=True):
                     G["nodes"].pop(p)
             G["edges"] = {((p, x) if c == y else (p, c)) for (p, c) in G["edges"]}
             G["nodes"][x] = G["nodes"].pop(y)
+            if y in pl:
+                pl[x] = pl.pop(y)
+            else:
+                pl.pop(x, None)
             nm = G.setdefault("named", {})
             nm.pop(x, None)
             if y in nm:
